@@ -11,6 +11,12 @@ fn io_error_other(msg: &str) -> std::io::Error { std::io::Error::other(msg) }
 
 type Result<T> = std::result::Result<T, std::io::Error>;
 
+// ASSUMED std contract: i128::div_euclid.  Panics on division by zero and on MIN / -1; for a positive divisor the
+// result is the floor of the quotient (spec `/` on int is Euclidean division).
+pub assume_specification[i128::div_euclid](a: i128, b: i128) -> (r: i128)
+    requires b != 0, !(a == i128::MIN && b == -1)
+    ensures b > 0 ==> r == (a as int) / (b as int);
+
 mod time {
     use super::*;
     #[verifier::external_body]
